@@ -1,6 +1,12 @@
 package vaxis
 
-import "git.sr.ht/~rockorager/vaxis/zzverif"
+import (
+	"strings"
+
+	"git.sr.ht/~rockorager/vaxis/zzverif"
+	"github.com/mattn/go-runewidth"
+	"github.com/rivo/uniseg"
+)
 
 // verifDist is the library's weighted squared distance, scaled by 10^4 to integers:
 // (0.3 dR)^2 + (0.59 dG)^2 + (0.11 dB)^2  =  (900 dR^2 + 3481 dG^2 + 121 dB^2) / 10^4.
@@ -66,5 +72,34 @@ func VerifC07Palette() {
 		ok = ok && colorIndex[216+k] == v<<16|v<<8|v
 	}
 	zzverif.Assert(ok, "palette-is-xterm-256")
+	zzverif.Reach("end")
+}
+
+// VerifC07Width: graphemes are measured with the width method that matches the terminal:
+// a terminal that does Unicode-core clustering or takes explicit widths renders a cluster in
+// the standard cluster width; a terminal known not to join ZWJ sequences renders the cluster
+// without its joiners; any other terminal advances by the sum of the code points' widths.
+func VerifC07Width() {
+	vx := verifBareVaxis(2, 1)
+	vx.caps.unicodeCore = zzverif.Bool("cap.unicodeCore")
+	vx.caps.explicitWidth = zzverif.Bool("cap.explicitWidth")
+	vx.caps.noZWJ = zzverif.Bool("quirk.noZWJ")
+	g := []string{"a", "世", "é", "\U0001F469‍\U0001F680", "\U0001F1E9\U0001F1EA", "❤️"}[zzverif.Choose("grapheme", 6)]
+	want := 0
+	switch {
+	case vx.caps.unicodeCore || vx.caps.explicitWidth:
+		want = uniseg.StringWidth(g)
+	case vx.caps.noZWJ:
+		want = uniseg.StringWidth(strings.ReplaceAll(g, "‍", ""))
+	default:
+		for _, r := range g {
+			if r >= 0xFE00 && r <= 0xFE0F {
+				continue // variation selectors take no cell of their own
+			}
+			want += runewidth.RuneWidth(r)
+		}
+	}
+	zzverif.Assert(vx.RenderedWidth(g) == want, "width-method-matches-the-terminal")
+	zzverif.Assert(vx.characterWidth(g) == want && vx.characterWidth(g) == want, "cached-width-is-the-same")
 	zzverif.Reach("end")
 }
